@@ -33,3 +33,17 @@ def run(model, tier="quick"):
     ]
     res.not_decided = ["rejections through implicit exceptions (unknown key, wrong type)"]
     return res
+
+MANIFEST = {
+    "technique": "static failure-atomicity analysis: write-before-rejection dataflow over inlined operation bodies (ast abstract interpretation)",
+    "claim": "Static analysis of all paths of every public state-changing operation of the six markets and the broker "
+             "(callees inlined, powerset of abstract states): no write to holdings, wallet, visible order book or action "
+             "log precedes a reachable rejection (raise/require/assert/closed-market gate) without rollback. Decides the "
+             "ordering clause of C04 for every operation and every modelled rejection cause; a finding names the write "
+             "and the rejection construct. The remaining genuine defects (Squeeth check-after-mutate, two-token debits) "
+             "are listed as known findings keyed by (write, rejection) construct.",
+    "note": "Trusted: call resolver and field-type table (sa/model.py), state classification (sa/state.py), constituent "
+            "boundaries and the two structural invariants (rules/atom.py: position ticks validated on creation, position "
+            "implies wallet entries) which are re-checked on every run. Not decided: rejections through implicit "
+            "exceptions (KeyError, TypeError, Decimal signals).",
+}
